@@ -225,6 +225,113 @@ IMPL = {
 }
 
 
+# ---- modes / optional parameters that the plain ops above never set --------------------------------
+def _witness_parse(b):
+    """decode_script(b, witness=True, parse=True) -> (raw serialisation of the first stack, rest)"""
+    r = S().decode_script(b, witness=True, parse=True)
+    raw, rest = r                      # a bare list (buffer exhausted early) raises ValueError here
+    if not isinstance(raw, (bytes, bytearray)) or not isinstance(rest, (bytes, bytearray)):
+        raise ValueError("decode_script(witness=True, parse=True) did not return (bytes, bytes)")
+    return (bytes(raw), bytes(rest))
+
+
+class SequenceViolation(Exception):
+    """a builder changed its caller's list / answered differently the second time"""
+    harness_violation = True
+
+
+def _snapshot(x):
+    return [bytes(e) if isinstance(e, (bytes, bytearray, memoryview)) else e for e in x] if isinstance(x, list) else x
+
+
+def _call_builder(name, lst, rs):
+    """the builders that take a caller-owned list (signatures / public keys / script items)"""
+    m = S()
+    if name in ("p2sh_script_sig", "p2sh_multisig_script_sig"):
+        return getattr(m, name)(lst, rs)
+    if name == "multisig_script_sig":
+        return m.multisig_script_sig(lst)
+    if name in ("multisig_script_pubkey", "p2sh_multisig_script_pubkey"):
+        return getattr(m, name)(rs, lst)           # rs carries m here
+    if name == "script":
+        return m.script(lst)
+    if name == "script_w":
+        return m.script(lst, witness=True)
+    raise KeyError(name)
+
+
+SEQ_GROUPS = {
+    # builders handed the SAME list object one after the other (fee estimation then final build, several inputs
+    # of one multisig, one signature list given to two templates)
+    "sigs": ["p2sh_script_sig", "multisig_script_sig", "p2sh_multisig_script_sig"],
+    "keys": ["multisig_script_pubkey", "p2sh_multisig_script_pubkey"],
+    "strs": ["script"],
+}
+
+
+def _seq_op(first, second):
+    def run(lst, rs=None):
+        before = _snapshot(lst)
+        try:
+            r1 = _call_builder(first, lst, rs)
+        except Exception:
+            r1 = None                               # a refusal of the first call is judged by its own op
+        if _snapshot(lst) != before:
+            raise SequenceViolation("%s(...) modified its caller's list: %d -> %d elements" % (first, len(before), len(lst)))
+        r2 = _call_builder(second, lst, rs)         # the value compared with the model of `second` on the ORIGINAL args
+        if _snapshot(lst) != before:
+            raise SequenceViolation("%s(...) modified its caller's list" % second)
+        if first == second and r1 is not None and r1 != r2:
+            raise SequenceViolation("two calls with the same arguments returned different scripts")
+        return r2
+    return run
+
+
+SEQ_OPS = {}
+for _g, _names in SEQ_GROUPS.items():
+    for _a in _names:
+        for _b in _names:
+            SEQ_OPS["seq_%s__%s" % (_a, _b)] = (_a, _b)
+
+IMPL.update({
+    "witness_parse": _witness_parse,
+    # parse=True is ignored outside witness mode
+    "decode_script_parse_flag": lambda b: S().decode_script(b, witness=False, parse=True),
+    "script_kw": lambda args: S().script(args=args, witness=False),
+    # witness_version left at its default / passed positionally
+    "p2wpkh_script_pubkey_default": lambda h: S().p2wpkh_script_pubkey(h),
+    "p2wsh_script_pubkey_default": lambda h: S().p2wsh_script_pubkey(h),
+    "p2sh_p2wpkh_script_pubkey_default": lambda h: S().p2sh_p2wpkh_script_pubkey(h),
+    "p2sh_p2wsh_script_pubkey_default": lambda ws: S().p2sh_p2wsh_script_pubkey(ws),
+    "p2wpkh_script_pubkey_pos": lambda h, v: S().p2wpkh_script_pubkey(h, v),
+    "p2wsh_script_pubkey_pos": lambda h, v: S().p2wsh_script_pubkey(h, v),
+    "p2sh_p2wpkh_script_pubkey_pos": lambda h, v: S().p2sh_p2wpkh_script_pubkey(h, v),
+    "p2sh_p2wsh_script_pubkey_pos": lambda ws, v: S().p2sh_p2wsh_script_pubkey(ws, v),
+})
+IMPL.update({name: _seq_op(a, b) for name, (a, b) in SEQ_OPS.items()})
+
+# variant op -> (library op whose model / oracle judges it, argument rewriting)
+VARIANT_OF = {"decode_script_parse_flag": ("decode_script", lambda a: a), "script_kw": ("script", lambda a: a)}
+for _n in ("p2wpkh_script_pubkey", "p2wsh_script_pubkey", "p2sh_p2wpkh_script_pubkey", "p2sh_p2wsh_script_pubkey"):
+    VARIANT_OF[_n + "_default"] = (_n, lambda a: [a[0], 0])
+    VARIANT_OF[_n + "_pos"] = (_n, lambda a: a)
+for _name, (_a, _b) in SEQ_OPS.items():
+    if _b in ("multisig_script_sig", "script"):
+        VARIANT_OF[_name] = (_b, lambda a: [a[0]])
+    elif _b in ("multisig_script_pubkey", "p2sh_multisig_script_pubkey"):
+        VARIANT_OF[_name] = (_b, lambda a: [a[1], a[0]])
+    else:
+        VARIANT_OF[_name] = (_b, lambda a: [a[0], a[1]])
+
+
+def base_case(c):
+    """the plain library case a variant / sequence op is judged by"""
+    if c["op"] in VARIANT_OF:
+        op, f = VARIANT_OF[c["op"]]
+        return dict(c, op=op, args=f(c["args"]))
+    return c
+
+
 # ------------------------------------------------------------------------------------------------
 # the command line entry point `bits script` (run in-process through harness/cli.py)
 #   bits [-0 FMT] script ITEM...              = write_bytes(script(ITEMS), output_format)
@@ -370,6 +477,9 @@ CLI_LIB = {"cli_script": "script", "cli_script_w": "witness_ser", "cli_decode": 
 def model_call(c):
     if c["op"] in CLI_MODEL:
         return CLI_MODEL[c["op"]], c["args"][:1]
+    if c["op"] in VARIANT_OF:
+        b = base_case(c)
+        return "c13_" + b["op"], b["args"]
     return "c13_" + c["op"], c["args"]
 
 
@@ -464,9 +574,13 @@ def prop_oracle(c):
 
 def in_quantifier(c):
     """is the case inside the set the property quantifies over (so that the oracle says something)?"""
+    c = base_case(c)
     op, a = c["op"], c["args"]
     if op in ("cli_decode_multi", "cli_decode_str"):
         return True
+    if op == "witness_parse":
+        r = ref_witness_parse(a[0])
+        return r is not None and ref_witness(r[0]) + r[1] == a[0]
     if op in CLI_LIB:
         op, a = CLI_LIB[op], a[:1]
     if op == "script":
@@ -544,11 +658,74 @@ def norm_val(v):
     return v
 
 
+def _seq_oracle(c):
+    """a builder is called with a caller-owned list, then a builder is called again with the SAME list object: both
+    calls must emit their intended scripts and the list must be left as it was"""
+    first, second = SEQ_OPS[c["op"]]
+    a = c["args"]
+    lst, rs = list(a[0]), (a[1] if len(a) > 1 else None)
+    before = _snapshot(lst)
+    steps = []
+    for i, name in enumerate((first, second)):
+        bc = base_case(dict(c, op="seq_%s__%s" % (name, name)))
+        items = _intended(bc["op"], bc["args"]) if bc["op"] != "script" else \
+            ([_classify(x) for x in a[0]] if all(_classify(x) is not None for x in a[0]) else None)
+        try:
+            out = _call_builder(name, lst, rs)
+        except Exception as e:
+            if items is None:
+                steps.append("call %d %s: refused" % (i + 1, name))
+                continue
+            return "call %d, %s(<the same list>%s): raised %s although the arguments are inside the template" % (
+                i + 1, name, "" if rs is None else ", ...", type(e).__name__)
+        if _snapshot(lst) != before:
+            msg = "call %d, %s(lst%s) changed the caller's list from %d to %d elements (%s)" % (
+                i + 1, name, "" if rs is None else ", arg", len(before), len(lst), short(_snapshot(lst)[len(before):], 80))
+            if i == 0:                          # what the next call with that list object then emits
+                try:
+                    out2 = _call_builder(second, lst, rs)
+                    msg += "; call 2, %s(lst%s) then emits %s = %s" % (second, "" if rs is None else ", arg", short(out2.hex(), 80),
+                                                                     short(S().decode_script(out2), 160))
+                except Exception as e:
+                    msg += "; call 2, %s then raises %s" % (second, type(e).__name__)
+            return msg
+        if items is not None and out != ref_asm(items):
+            return "call %d, %s on the same list emits %s, the intended script is %s; disassembly %s" % (
+                i + 1, name, short(out.hex(), 100), short(ref_asm(items).hex(), 100), short(S().decode_script(out), 200))
+    return None
+
+
 def _prop_oracle(c):
     m = S()
     op, a = c["op"], c["args"]
     if op.startswith("cli_"):
         return _cli_oracle(c)
+    if op in SEQ_OPS:
+        return _seq_oracle(c)
+    if op in VARIANT_OF:                      # same statement as the plain op, through the variant entry point
+        b = base_case(c)
+        try:
+            got = IMPL[op](*a)
+        except Exception as e:
+            got = e
+        try:
+            lib = IMPL[b["op"]](*b["args"])
+        except Exception as e:
+            lib = e
+        if isinstance(lib, Exception) != isinstance(got, Exception) or (not isinstance(lib, Exception) and lib != got):
+            return "%s%r = %s but %s%r = %s" % (op, tuple(short(x, 40) for x in a), short(got, 100), b["op"],
+                                                tuple(short(x, 40) for x in b["args"]), short(lib, 100))
+        return _prop_oracle(b)
+    if op == "witness_parse":
+        r = ref_witness_parse(a[0])
+        if r is None or ref_witness(r[0]) + r[1] != a[0]:
+            return None                       # not a canonically serialised stack followed by anything
+        raw, rest = IMPL[op](a[0])
+        if raw != ref_witness(r[0]) or rest != r[1]:
+            return "decode_script(witness=True, parse=True) returned raw stack of %d bytes %s..%s and %d bytes rest; the stack's " \
+                   "serialisation has %d bytes (..%s), rest %d bytes" % (len(raw), raw[:6].hex(), raw[-4:].hex(), len(rest),
+                                                                        len(a[0]) - len(r[1]), ref_witness(r[0])[-4:].hex(), len(r[1]))
+        return None
     if op == "script":
         items = [_classify(x) for x in a[0]]
         if any(i is None for i in items):
@@ -833,22 +1010,51 @@ def gen_cases(rng, tier):
     # item COUNT across the CompactSize boundary (tapscript allows up to 1000 stack items)
     for n in (252, 253, 254, 255, 256, 300) + ((1000, 65535) if T else ()):
         W("w-count-%d" % n if n in (252, 253, 255, 256) else "w-count-many", [bytes([i & 0xFF]) * (i % 3) for i in range(n)])
-    WD = lambda cls, bs: out.append(case(cls, "witness_deser", bs))
+    def WD(cls, bs):
+        out.append(case(cls, "witness_deser", bs))
+        out.append(case("wp-" + cls[3:], "witness_parse", bs))          # the parse=True mode on the same stream
     WD("wd-empty-input", b"")
     WD("wd-empty-stack", b"\x00")
     WD("wd-empty-stack", b"\x00\xaa\xbb")
-    for s in stacks + [[rng.randbytes(n)] for n in wl] + [[b""], [b"", b""], [b"\x01"] * 20]:
+    big = [[rng.randbytes(65536)], [b"\x01", rng.randbytes(65536), b""], [rng.randbytes(65535), rng.randbytes(65537)],
+           [rng.randbytes(70000), rng.randbytes(3)]]
+    many = [[bytes([i & 0xFF]) * (i % 3) for i in range(n)] for n in (252, 253, 254) + ((255, 256, 1000) if T else ())]
+    for s in stacks + [[rng.randbytes(n)] for n in wl] + [[b""], [b"", b""], [b"\x01"] * 20] + big + many:
         ser = ref_witness(s)
         WD("wd-valid", ser)
         WD("wd-valid-tail", ser + rng.randbytes(rng.randrange(1, 9)))
-        if len(ser) > 1 and len(ser) < 5000:
+        if len(ser) > 1 and (len(ser) < 5000 or s in big):
             WD("wd-trunc", ser[: rng.randrange(1, len(ser))])
+            WD("wd-trunc-last", ser[:-1])
     for s in ("01", "02", "0100", "020100", "0201aa", "01fd", "01fd01", "01fd0100", "01fd0100aa", "01fe01000000aa", "01ff0100000000000000aa",
               "fd0100", "fd010001aa", "fd000000", "fe00000000", "ff0000000000000000aa", "fd", "fe0000", "ff00", "0105aa", "03010101",
               "01ffffffffffffffffffaa", "ffffffffffffffffff"):
         WD("wd-malformed", bytes.fromhex(s))
     for _ in range(300 if T else 60):
         WD("wd-rand", bytes([rng.randrange(0, 4)]) + rng.randbytes(rng.randrange(0, 12)))
+
+    # ---- optional parameters / modes no plain op sets ---------------------------------------------
+    for p in progs[: (120 if T else 25)]:
+        out.append(case("dec-parse-flag", "decode_script_parse_flag", p))
+    for _ in range(60 if T else 10):
+        out.append(case("asm-kw", "script_kw", _strs(_rand_items(rng, 5, big=False))))
+    for _ in range(6 if T else 2):
+        for nm, ln in (("p2wpkh_script_pubkey", 20), ("p2wsh_script_pubkey", 32), ("p2sh_p2wpkh_script_pubkey", 20),
+                       ("p2sh_p2wsh_script_pubkey", rng.randrange(1, 600))):
+            out.append(case("b-default-version", nm + "_default", rng.randbytes(ln)))
+            for v in (0, 1, 16, 17):
+                out.append(case("b-positional-version", nm + "_pos", rng.randbytes(ln), v))
+    # ---- the same caller-owned list handed to a builder twice / to two builders (aliasing, call history) ----
+    for _ in range(8 if T else 2):
+        for nm, (fa, fb) in sorted(SEQ_OPS.items()):
+            if fa in SEQ_GROUPS["sigs"]:
+                for k in (0, 1, 2, 3):
+                    out.append(case("seq-sigs-%d" % k, nm, [_sig(rng) for _ in range(k)], rng.randbytes(rng.choice([1, 34, 71, 105, 300]))))
+            elif fa in SEQ_GROUPS["keys"]:
+                n = rng.randrange(1, 6)
+                out.append(case("seq-keys", nm, [_key(rng) for _ in range(n)], rng.randrange(1, n + 1)))
+            else:
+                out.append(case("seq-strs", nm, _strs(_rand_items(rng, 5, big=False))))
 
     # ---- the command line: `bits script` must agree with the library / model --------------------
     CA = lambda cls, strs, fmt="hex": out.append(case(cls, "cli_script", strs, fmt))
@@ -910,6 +1116,9 @@ def gen_cases(rng, tier):
         for st in ([], [b""], [b"\xaa\xbb", b""], [rng.randbytes(253)], [rng.randbytes(1)] * 253):
             out.append(case("cli-dec-witness", "cli_decode_w", ref_witness(st)))
             out.append(case("cli-dec-witness", "cli_decode_w", ref_witness(st) + b"\x01\x02"))
+    # multi-call sequences first: when a builder leaks state into its caller's list, the replay that names the
+    # sequence is reported before the single-call symptoms
+    out.sort(key=lambda c: 0 if c["op"] in SEQ_OPS else 1)
     return out
 
 
@@ -928,7 +1137,7 @@ def _shrink(c):
         c2 = dict(c)
         c2["args"] = list(args)
         return c2
-    if c["op"] in ("script", "cli_script"):
+    if c["op"] in ("script", "cli_script", "script_kw", "seq_script__script"):
         strs = a[0]
         for i in range(len(strs)):
             yield with_args(strs[:i] + strs[i + 1:], *a[1:])
@@ -998,6 +1207,7 @@ def coq_equation(c, mr):
         size += len(x) if isinstance(x, (bytes, str)) else (sum(len(y) for y in x) if isinstance(x, list) else 0)
     if size > 200:
         return None
+    c = base_case(c)
     op = c["op"]
     if op.startswith("cli_"):
         if op not in CLI_MODEL:
@@ -1016,5 +1226,5 @@ def coq_equation(c, mr):
 
 # ops whose answer must not depend on the concrete bytes-like type of their arguments (they agree on the pinned tree;
 # tools/bytearray_probe.py); common.py re-runs a sample of their cases with bytearray arguments
-BYTEARRAY_OPS = {'p2wsh_script_pubkey', 'p2pkh_script_sig', 'p2sh_p2wpkh_script_pubkey', 'p2sh_p2wpkh_script_sig', 'p2sh_p2wsh_script_sig', 'p2sh_p2wsh_script_pubkey', 'p2sh_script_pubkey', 'witness_deser', 'p2pk_script_sig', 'p2wpkh_script_pubkey', 'p2sh_multisig_script_sig', 'p2pkh_script_pubkey', 'null_data_script_pubkey', 'p2pk_script_pubkey', 'p2sh_script_sig', 'canonical', 'decode_script'}
+BYTEARRAY_OPS = {'witness_parse', 'decode_script_parse_flag', 'p2wsh_script_pubkey', 'p2pkh_script_sig', 'p2sh_p2wpkh_script_pubkey', 'p2sh_p2wpkh_script_sig', 'p2sh_p2wsh_script_sig', 'p2sh_p2wsh_script_pubkey', 'p2sh_script_pubkey', 'witness_deser', 'p2pk_script_sig', 'p2wpkh_script_pubkey', 'p2sh_multisig_script_sig', 'p2pkh_script_pubkey', 'null_data_script_pubkey', 'p2pk_script_pubkey', 'p2sh_script_sig', 'canonical', 'decode_script'}
 MEMORYVIEW_OPS = {'p2wpkh_script_pubkey', 'p2sh_script_sig', 'p2pkh_script_sig', 'decode_script', 'p2sh_multisig_script_sig', 'p2pkh_script_pubkey', 'p2sh_p2wpkh_script_pubkey', 'p2sh_p2wsh_script_sig', 'p2sh_script_pubkey', 'null_data_script_pubkey', 'p2pk_script_pubkey', 'p2sh_p2wsh_script_pubkey', 'p2wsh_script_pubkey', 'p2pk_script_sig', 'p2sh_p2wpkh_script_sig', 'canonical'}
